@@ -301,6 +301,7 @@ def run(ctx):
 
     # ---- D11: a CPUID leaf is queried only where the CPU is known to implement it ------------------------
     d11_cpuid_leaf_guard(db, rep)
+    d12_orcc_target_honoured(db, rep)
 
     # ---- D3 executability ---------------------------------------------------
     want_exec = {"sse": ("orcprogram-sse", "sse_is_executable", ["ORC_TARGET_SSE_SSE2"]),
@@ -546,3 +547,32 @@ def d11_cpuid_leaf_guard(db, rep, rule="D11-CPUID-LEAF-GUARD"):
                       "leaf 2: the avx target becomes executable and the default on a CPU without AVX2)" % (f.name, L, L), line=c.line)
     if n < 4:
         raise AnalysisBroken("only %d constant basic CPUID leaf queries found in orccpu-x86.c" % n)
+
+
+def d12_orcc_target_honoured(db, rep, rule="D12-ORCC-TARGET-HONOURED"):
+    """D12: "a target requested by name ... is the one that is used" also when the request is orcc's --target option.  Every place
+    where orcc prints a compile call into the generated source has two siblings: `orc_program_compile_for_target (p,
+    orc_target_get_by_name ("T"))` when a target was named, `orc_program_compile (p)` otherwise.  Each print of the default-target
+    call must lie where the option variable `target` is known to be NULL, and each such site must have the by-name sibling."""
+    tu = db.tu("orcc")
+    n = 0
+    for f in tu.main_functions():
+        fc = None
+        for c in f.calls():
+            nm = (c.name or "").replace("__builtin___", "").replace("_chk", "")
+            if nm not in ("fprintf", "printf"):
+                continue
+            lits = [strip_casts(a).get("str", "") for a in c.args() if strip_casts(a) is not None and strip_casts(a).k == "StringLiteral"]
+            if not any("orc_program_compile (p)" in t for t in lits):
+                continue
+            fc = fc or Facts(f)
+            n += 1
+            rep.saw(f)
+            ok = any(x[0] != "switch" and access_path(strip_casts(x[0])) == "target" and x[1] is False for x in fc.conds(c))
+            rep.check(ok, rule, where(f), "default-compile@%s:%s" % (f.name, c.line),
+                      "the default-target compile call is printed only when no --target was given",
+                      "%s prints `orc_program_compile (p)` into the generated source without looking at the --target option (line %s): the functions "
+                      "generated for this mode are compiled for the default back end although a target was named on the command line" % (f.name, c.line), line=c.line)
+    if n < 2:
+        raise AnalysisBroken("only %d places where orcc prints a default-target compile call" % n)
+    return n
